@@ -1,9 +1,198 @@
-import RulioModel.Spec
+import RulioModel.LocInv
+import RulioProofs.LocState
+import RulioProofs.LocExpiry
+import Props.C19
 
-/-! # C07 — expiry (placeholder obligations until the Loc proofs land) -/
+open LocP
 
-/-- an item is unobservable from its expiry instant on: `notAfter` is `≤` -/
-theorem notAfter_iff (e t : Int) (h : e ≠ 0) : notAfter e t = decide (e ≤ t) := by
-  unfold notAfter; simp [h]
+/-! # C07 — expiry is absolute and expired items are never observable (property theorems only)
 
-theorem no_expiry_never (t : Int) : notAfter 0 t = false := by simp [notAfter]
+Time is the explicit parameter `now` / `t` (UNIX seconds).  `prepareFact` is `PrepareFact` (what both State
+implementations run on every write, and what is stored), `checkExpiration` is what `Get` / `Search` /
+`FindRules` consult.  The comparison used is the one regenerated from `notAfter` in `core/state.go`
+(`Gen.notAfterCmp`, tied to the model by `gen_defs_match_model`). -/
+
+/-- The expiry instant per encoding: `ttl` number → `now + n`; `ttl` duration string → `now + d`;
+numeric `expires` → that number; RFC3339 `expires` → its UNIX time (a `ttl` wins over an `expires`). -/
+theorem expiry_encodings (x : Obj) (now : Int) :
+    (∀ n, x.get? "ttl" = some (.num n) → expiryOf x now = some (now + n)) ∧
+    (∀ s d, x.get? "ttl" = some (.str s) → parseDurationSecs s = some d → expiryOf x now = some (now + d)) ∧
+    (∀ n, x.get? "ttl" = none → x.get? "expires" = some (.num n) → expiryOf x now = some n) ∧
+    (∀ s t, x.get? "ttl" = none → x.get? "expires" = some (.str s) → parseRFC3339 s = some t →
+      expiryOf x now = some t) := by
+  refine ⟨fun n h => ?_, fun s d h hp => ?_, fun n h1 h2 => ?_, fun s t h1 h2 hp => ?_⟩ <;>
+    simp [expiryOf, *]
+
+/-- **The expiry instant is fixed when the item is written.**  A successful `prepareFact` at `now` yields the
+stored fact `m`: without `ttl`; if `x` carried an expiry, `m.expires` is the number `expiryOf x now` (now + ttl,
+or the given instant); every later expiry test reads just that stored number (so no read can move it); and
+preparing the *stored* fact again at any other time `now'` — what a reload does — finds the same instant.
+A fact without expiry is stored as it is and stays without. -/
+theorem expiry_fixed_at_write {given fresh id : String} {x m x' : Obj} {now : Int}
+    (h : prepareFact given fresh x now = .ok (id, m, x')) :
+    m.get? "ttl" = none ∧
+    (Expiring x → ∃ e, expiryOf x now = some e ∧ m.get? "expires" = some (.num e) ∧
+        (∀ t, checkExpiration m t = .ok (notAfter e t)) ∧
+        (∀ now', ∃ m', setExpires m now' = .ok (m', true, e) ∧ m'.get? "expires" = some (.num e) ∧
+          m'.get? "ttl" = none)) ∧
+    (¬ Expiring x → m = x ∧ ∀ now', setExpires m now' = .ok (m, false, 0)) := by
+  obtain ⟨_, b, e, hs, _⟩ := prepareFact_ok h
+  obtain ⟨h1, h2, h3⟩ := setExpires_ok hs
+  refine ⟨h1, fun hE => ?_, fun hN => ?_⟩
+  · obtain ⟨_, he, hm, hr⟩ := h3 hE
+    exact ⟨e, he, hm, fun t => by simp [checkExpiration, hm], fun now' => setExpires_again h1 hm hr now'⟩
+  · obtain ⟨_, _, hmx⟩ := h2 hN
+    subst hmx
+    have hx : m.get? "expires" = none := by
+      cases hv : m.get? "expires" with
+      | none => rfl
+      | some v => exact absurd (Or.inr (by rw [hv]; simp)) hN
+    exact ⟨rfl, fun now' => setExpires_again_none h1 hx now'⟩
+
+/-- Reads never move or rewrite a stored item: after `Get`, `Search`, `FindRules` (or `Rem`) at any time, a
+fact that is still stored is the identical fact — with the identical `expires`. -/
+theorem reads_never_move_expiry (s : St) (op : SOp) (t : Int) (hop : ∀ g x, op ≠ .add g x)
+    (id : String) (f : Obj) (h : amGet (op.step s t).facts id = some f) : amGet s.facts id = some f := by
+  cases op with
+  | get i => exact (St.get_keeps s i t).facts_sub h
+  | search p => exact (St.search_keeps s p t).facts_sub h
+  | rem i => exact (St.rem_keeps s i t).facts_sub h
+  | findRules ev => exact (St.findRules_keeps s ev t).facts_sub h
+  | add g x => exact absurd rfl (hop g x)
+
+/-- **Visible strictly before the expiry instant.**  For a stored fact with `expires = e ≠ 0` the expiry test
+at `t` is the regenerated comparison `e <= t`: the item is unexpired iff `t < e`.  Accordingly `Get` (both
+implementations) returns the fact, and leaves the state alone, at every `t < e`, and refuses from `t = e` on. -/
+theorem visible_iff_before {m : Obj} {e : Int} (hm : m.get? "expires" = some (.num e)) (he : e ≠ 0) (t : Int) :
+    checkExpiration m t = .ok (Gen.notAfterCmp e t) ∧
+    (checkExpiration m t = .ok false ↔ t < e) ∧
+    (∀ (s : St) (id : String), amGet s.facts id = some m →
+      (t < e → s.get id t = (s, .ok m)) ∧ (e ≤ t → ∃ err, (s.get id t).2 = .error err)) := by
+  have hc : checkExpiration m t = .ok (Gen.notAfterCmp e t) := by
+    simp only [checkExpiration, hm]; rw [gen_defs_match_model.2.1 e t he]
+  have hiff : checkExpiration m t = .ok false ↔ t < e := by
+    rw [hc]; simp [Gen.notAfterCmp, Int.not_le]
+  refine ⟨hc, hiff, fun s id hg => ⟨fun hlt => ?_, fun hle => ?_⟩⟩
+  · have hfalse := hiff.2 hlt
+    have hfresh : FreshAt s id t := by
+      intro f hf; rw [hg] at hf; cases hf; rw [hfalse]; simp
+    rw [St.get_eq_of_fresh hfresh]
+    simp [getPure, hg, hfalse]
+  · have htrue : checkExpiration m t = .ok true := by
+      rw [hc]; simp [Gen.notAfterCmp, hle]
+    exact (St.get_expired hg htrue).1
+
+/-- Items without an expiry never expire: no `expires` key, or `expires = 0` ("no expiration"). -/
+theorem no_expiry_never_expires (m : Obj) :
+    (m.get? "expires" = none → ∀ t, checkExpiration m t = .ok false) ∧
+    (m.get? "expires" = some (.num 0) → ∀ t, checkExpiration m t = .ok false) ∧
+    (∀ (given fresh id : String) (x x' : Obj) (now : Int), prepareFact given fresh x now = .ok (id, m, x') →
+      ¬ Expiring x → ∀ t, checkExpiration m t = .ok false) := by
+  refine ⟨fun h t => by simp [checkExpiration, h], fun h t => by simp [checkExpiration, h, notAfter], ?_⟩
+  intro given fresh id x x' now hp hN t
+  obtain ⟨hm, _⟩ := (expiry_fixed_at_write hp).2.2 hN
+  subst hm
+  have hx : m.get? "expires" = none := by
+    cases hv : m.get? "expires" with
+    | none => rfl
+    | some v => exact absurd (Or.inr (by rw [hv]; simp)) hN
+  simp [checkExpiration, hx]
+
+/-- **Writing an already expired item is rejected.**  `prepareFact` answers "expired" exactly when the item
+carries an expiry `e` (`≠ 0`) with `e ≤ now` (the regenerated comparison); both State implementations then
+refuse the `Add` and keep memory and storage as they were. -/
+theorem already_expired_rejected (given fresh : String) (x : Obj) (now : Int) :
+    (prepareFact given fresh x now = .error "expired" ↔
+      (∃ id, genId x given fresh = .ok id) ∧
+        ∃ m e, setExpires x now = .ok (m, true, e) ∧ e ≠ 0 ∧ Gen.notAfterCmp e now = true) ∧
+    (∀ s : St, prepareFact given s.freshId x now = .error "expired" →
+      s.add given x now = (s, .error "expired")) := by
+  constructor
+  · rw [prepareFact_expired_iff]
+    constructor
+    · rintro ⟨hid, m, e, hs, hn⟩
+      have he : e ≠ 0 := by intro h0; subst h0; simp [notAfter] at hn
+      exact ⟨hid, m, e, hs, he, by rw [← gen_defs_match_model.2.1 e now he]; exact hn⟩
+    · rintro ⟨hid, m, e, hs, he, hn⟩
+      exact ⟨hid, m, e, hs, by rw [gen_defs_match_model.2.1 e now he]; exact hn⟩
+  · intro s hp
+    unfold St.add
+    cases s.kind
+    · simp [St.iAdd, St.iadd, hp]
+    · simp [St.lAdd, hp]
+
+/-- **From the expiry instant on the item is never returned again, and it is purged once observed.**
+For a stored fact `f` expired at `t` (`t ≥ e`), in either State implementation:
+* `Get` answers an error, never the fact; afterwards the fact is gone from memory *and* storage — always in
+  the linear state, and in the indexed state whenever the removal itself (un-indexing a rule body, the
+  deleteWith cascade) does not fail;
+* `Search` never returns a fact that is expired at `t` (whatever the pattern), and every returned fact is
+  the stored one; a completed linear `Search` has purged every expired fact from memory and storage;
+* once absent from memory and storage, the id stays absent at every later time, through any history of
+  `Get` / `Search` / `FindRules` / `Rem` / `Add`s of other ids, until an `Add` returns this id again. -/
+theorem never_again :
+    (∀ (s : St) (id : String) (f : Obj) (t : Int), amGet s.facts id = some f → checkExpiration f t = .ok true →
+      (∃ err, (s.get id t).2 = .error err) ∧
+      (s.kind = .linear → amGet (s.get id t).1.facts id = none ∧ amGet (s.get id t).1.store id = none) ∧
+      ((∀ err, (St.irem s.fuel s id t).2 ≠ .error err) →
+        amGet (s.get id t).1.facts id = none ∧ amGet (s.get id t).1.store id = none)) ∧
+    (∀ (s s' : St) (p : Obj) (t : Int) (out : List (String × Obj × List Bs)), s.search p t = (s', .ok out) →
+      (∀ r ∈ out, amGet s.facts r.1 = some r.2.1 ∧ checkExpiration r.2.1 t ≠ .ok true) ∧
+      (s.kind = .linear → ∀ id f, amGet s.facts id = some f → checkExpiration f t = .ok true →
+        amGet s'.facts id = none ∧ amGet s'.store id = none)) ∧
+    (∀ (s : St) (id : String) (ops : List (SOp × Int)),
+      amGet s.facts id = none ∧ amGet s.store id = none → NeverAdds id s ops →
+      amGet (runSOps s ops).facts id = none ∧ amGet (runSOps s ops).store id = none) := by
+  refine ⟨fun s id f t hg hx => ?_, fun s s' p t out h => ?_, fun s id ops habs hna => runSOps_absent ops s habs hna⟩
+  · obtain ⟨h1, h2, h3⟩ := St.get_expired hg hx
+    exact ⟨h1, h3, h2⟩
+  · exact ⟨St.search_results h, fun hk id f hg hx => St.search_purges_linear hk h hg hx⟩
+
+/-- The parsers on concrete inputs: RFC3339 (the epoch; today 05:00 UTC; malformed inputs rejected), durations,
+and the day count across month / year / leap-day boundaries. -/
+theorem parsers_sane :
+    parseRFC3339 "1970-01-01T00:00:00Z" = some 0 ∧
+    parseRFC3339 "2026-09-29T05:00:00Z" = some 1790658000 ∧
+    parseRFC3339 "2026-09-29 05:00:00Z" = none ∧ parseRFC3339 "2026-13-01T00:00:00Z" = none ∧
+    parseDurationSecs "90m" = some 5400 ∧ parseDurationSecs "2s" = some 2 ∧ parseDurationSecs "1h" = some 3600 ∧
+    parseDurationSecs "-5s" = some (-5) ∧ parseDurationSecs "5ms" = none ∧ parseDurationSecs "soon" = none ∧
+    daysFromCivil 1970 1 1 = 0 ∧
+    daysFromCivil 2026 10 1 = daysFromCivil 2026 9 30 + 1 ∧
+    daysFromCivil 2027 1 1 = daysFromCivil 2026 12 31 + 1 ∧
+    daysFromCivil 2024 3 1 = daysFromCivil 2024 2 28 + 2 ∧
+    daysFromCivil 2026 3 1 = daysFromCivil 2026 2 28 + 1 :=
+  ⟨parseRFC3339_epoch, parseRFC3339_today, parseRFC3339_rejects.1, parseRFC3339_rejects.2,
+   parseDurationSecs_examples.1, parseDurationSecs_examples.2.1, parseDurationSecs_examples.2.2.1,
+   parseDurationSecs_examples.2.2.2.1, parseDurationSecs_examples.2.2.2.2.1, parseDurationSecs_examples.2.2.2.2.2,
+   by decide, by decide, by decide, by decide, by decide⟩
+
+/-! ## the hypotheses are satisfiable -/
+
+/-- a fact written with `ttl: 60` at time 1000 is stored with `expires: 1060` and without `ttl` -/
+example : setExpires [("likes", .str "tacos"), ("ttl", .num 60)] 1000 =
+    .ok ([("likes", .str "tacos"), ("expires", .num 1060)], true, 1060) := by rfl
+/-- … an RFC3339 `expires` becomes its UNIX time, also inside a rule body -/
+example : ∃ m, setExpires [("rule", .obj [("when", .obj [])]), ("expires", .str "2026-09-29T05:00:00Z")] 5 =
+    .ok (m, true, 1790658000) ∧ m.get? "expires" = some (.num 1790658000) := by
+  rw [setExpires_eq]
+  simp only [Obj.get?, lookupKey]
+  simp [expiresPart_eq, Obj.get?, lookupKey, parseRFC3339_today, mirrorRule, Obj.set]
+  exact ⟨_, rfl, rfl⟩
+/-- `Expiring` and the boundary: expired at 1060 and later, not at 1059 -/
+example : Expiring [("likes", .str "tacos"), ("ttl", .num 60)] ∧
+    checkExpiration [("likes", .str "tacos"), ("expires", .num 1060)] 1059 = .ok false ∧
+    checkExpiration [("likes", .str "tacos"), ("expires", .num 1060)] 1060 = .ok true := by
+  refine ⟨Or.inl (by decide), by decide, by decide⟩
+/-- a linear state holding that fact: `Get` at 1059 returns it, at 1060 it is refused and purged -/
+example :
+    let s : St := { kind := .linear, facts := [("f1", [("likes", .str "tacos"), ("expires", .num 1060)])],
+                    store := [("f1", .obj [("likes", .str "tacos"), ("expires", .num 1060)])] }
+    (s.get "f1" 1059).2 = .ok [("likes", .str "tacos"), ("expires", .num 1060)] ∧
+    (∃ err, (s.get "f1" 1060).2 = .error err) ∧
+    amGet (s.get "f1" 1060).1.facts "f1" = none ∧ amGet (s.get "f1" 1060).1.store "f1" = none := by
+  intro s
+  have hg : amGet s.facts "f1" = some [("likes", .str "tacos"), ("expires", .num 1060)] := rfl
+  have v := (visible_iff_before (m := [("likes", .str "tacos"), ("expires", .num 1060)]) (e := 1060)
+    rfl (by decide) 1059).2.2 s "f1" hg
+  have n := never_again.1 s "f1" _ 1060 hg (by decide)
+  exact ⟨by rw [v.1 (by decide)], n.1, n.2.1 rfl⟩
